@@ -7,7 +7,8 @@ NSpecial == 12          \* size of the table of special values the harness suppl
 
 Binary == {[fam |-> "binary", op |-> op, form |-> f, n |-> n, dr |-> dr] :
              op \in Ops, f \in Forms, n \in 0..NMax, dr \in {0 - 1, 0, 1}}
-Special == {[fam |-> "special", form |-> f, n |-> n] : f \in Forms, n \in 0..NMax}
+\* scalar operand of the scalar forms: NaN (index 4) and the identities / absorbing values of the four operators: +0, -0, +inf, 1, -1.5
+Special == {[fam |-> "special", form |-> f, n |-> n, s |-> si] : f \in Forms, n \in 0..NMax, si \in {4, 0, 1, 2, 7, 8}}
 Unary == {[fam |-> "unary", n |-> n] : n \in 0..NMax}
 Reduce == {[fam |-> "reduce", n |-> n] : n \in 0..NMax}
 Init == c \in Binary \cup Special \cup Unary \cup Reduce
@@ -22,8 +23,8 @@ Inv_Local == (c.fam = "binary" /\ c.dr = 0 /\ c.n >= 2) =>
        a == Meaning(c.form, c.op, l, r, 7)  b == Meaning(c.form, c.op, l2, r, 7) IN
    \A i \in 2..c.n : a.v[i] = b.v[i]
 
-SIdxL(n) == [i \in 1..n |-> (3 * i) % NSpecial]
-SIdxR(n) == [i \in 1..n |-> (5 * i + 2) % NSpecial]
+SIdxL(n) == [i \in 1..n |-> (5 * i + 8) % NSpecial]          \* every table entry appears as a left operand from n = 12 on (-0.0 first)
+SIdxR(n) == [i \in 1..n |-> (7 * i + 2) % NSpecial]
 \* reduction data: small integers with both signs; products stay small
 RedX(n) == [i \in 1..n |-> ((i * 5) % 7) - 3]
 RedY(n) == [i \in 1..n |-> ((i * 3) % 5) - 1]
@@ -36,8 +37,8 @@ Out ==
           shapes |-> IF c.n = 0 THEN <<>> ELSE SetToSeq(Factorizations(c.n)),
           exp |-> RSeqJ(m.v), panic |-> m.panic]
     [] c.fam = "special" ->
-         [fam |-> "special", form |-> c.form, n |-> c.n, l |-> SIdxL(c.n), r |-> SIdxR(c.n), s |-> 4,
-          exp |-> MeaningIdx(c.form, SIdxL(c.n), SIdxR(c.n), 4).v]
+         [fam |-> "special", form |-> c.form, n |-> c.n, l |-> SIdxL(c.n), r |-> SIdxR(c.n), s |-> c.s,
+          exp |-> MeaningIdx(c.form, SIdxL(c.n), SIdxR(c.n), c.s).v]
     [] c.fam = "unary" -> [fam |-> "unary", n |-> c.n, x |-> SIdxL(c.n),
                            shapes |-> IF c.n = 0 THEN <<>> ELSE SetToSeq(Factorizations(c.n))]
     [] c.fam = "reduce" ->
